@@ -128,7 +128,12 @@ func (w *Worker) InitPackage(pkg *ssa.Package) (err error) {
 			}
 		}
 	}()
+	i.pc = nil
 	call(i, nil, token.NoPos, pkg.Func("init"), nil)
+	// facts established while initialising package-level variables (brackets of transcendental
+	// functions applied to constants, e.g. var x = math.Log(c)) hold on every path
+	i.initPC = append(i.initPC, i.pc...)
+	i.pc = nil
 	return nil
 }
 
